@@ -132,8 +132,10 @@ namespace GeographicLib {
       {
         if (!((_nNx >= _nmx && _nmx >= _mmx && _mmx >= 0) ||
               // If mmx = -1 then the sums are empty so require nmx = -1 also.
-              (_nmx == -1 && _mmx == -1)))
+              (_nNx >= -1 && _nmx == -1 && _mmx == -1)))
           throw GeographicErr("Bad indices for coeff");
+        if (_nNx > 46339)       // index would overflow an int
+          throw GeographicErr("Degree too large for coeff");
         if (!(index(_nmx, _mmx) < int(C.size()) &&
               index(_nmx, _mmx) < int(S.size()) + (_nNx + 1)))
           throw GeographicErr("Arrays too small in coeff");
@@ -162,6 +164,8 @@ namespace GeographicLib {
       {
         if (!(_nNx >= -1))
           throw GeographicErr("Bad indices for coeff");
+        if (_nNx > 46339)       // index would overflow an int
+          throw GeographicErr("Degree too large for coeff");
         if (!(index(_nmx, _mmx) < int(C.size()) &&
               index(_nmx, _mmx) < int(S.size()) + (_nNx + 1)))
           throw GeographicErr("Arrays too small in coeff");
